@@ -57,6 +57,8 @@ def showOutcome : Pc → String
 def handle (st0 script fault : String) : Option String := do
   let st0 ← st0.toNat?
   let sc ← mapM? parseItem (splitList script ',')
+  -- `<fault>.<kind>`: the kind of context that is done; the model only knows "the context is done"
+  let fault := (fault.splitOn ".").headD fault
   let O ← (fault.splitOn "/").foldlM parsePart quiet
   let c := run O (2 * sc.length + 8) (init sc)
   let evs := c.tr.reverse.map showEv
@@ -73,7 +75,10 @@ ends in failure, the fault-free run (`clean`, `pclean`) completes.
 `comp <st0> <script> <fault>`: the component handshake model (`Model/Component.lean`). -/
 def handle (args : List String) : Option String :=
   match args with
-  | ["hs", _name, kind, _n] =>
+  | ["hs", _name, kind0, _n] =>
+    -- a suffix `.d` / `.p` / `.n` names the kind of context that is done; the model only knows
+    -- "the context is done"
+    let kind := (kind0.splitOn ".").headD kind0
     if kind == "clean" || kind == "pclean" || kind == "cleanb" then some "done"
     else if kind == "cut" || kind == "rd" || kind == "wr" || kind == "cancel" || kind == "pwr" || kind == "prd"
         || kind == "rdb"
